@@ -28,6 +28,16 @@ CHECKS = {
    note=TB + "All C17 theorems are closed under the global context. Tie: random set_rate histories compared exactly in Coq; "
         "propagation compared with the model over exact rationals within 1e-11.",
    design="7/C17", technique="Coq proof (ring/induction over op histories and Taylor loop) + in-Coq differential correspondence"),
+ "C19": dict(
+   text="Proved in Coq for every history (induction over op lists, data in any commutative ring): whatever is readable at the end "
+        "(total, signals, processes, types, per level of the store) equals the sum of the accepted additions belonging to it, "
+        "across all admissible reductions 4->3->2->0, 4->3->1->0 and refused ones; each accepted addition changes each view by "
+        "exactly the data; refused additions and refused resolution changes leave the store unchanged; reads are projections of "
+        "the store; refutation witness for the pinned setter (type-level add into a pathways store double counts; repaired by a "
+        "fix: commit). The state machine transcribes getter, setter, _add_data, set_resolution, _convert_res_elementary.",
+   note=TB + "All C19 theorems closed under the global context. Tie: random histories compared op by op inside Coq (accepted flag, "
+        "read result, final store) with exact integers; unknown resolution strings passed to _add_data are outside the model.",
+   design="7/C19", technique="Coq proof (state-machine invariant by induction over histories) + in-Coq differential correspondence"),
 }
 NOT_YET = {}
 def main():
